@@ -15,6 +15,7 @@
 #include <cstdint>
 #include <cstdio>
 #include <memory>
+#include <mutex>
 #include <functional>
 #include <map>
 #include <nlohmann/json.hpp>
@@ -175,14 +176,29 @@ Spline<T, O> mkSpline(const json &j, const Grid<T> &g) {
 }
 
 
+// ---------------------------------------------------------------- how operands are held
+// Sequential harness: the operands of a call are named NON-CONST objects, as
+// most callers hold them, so an entry point that takes a forwarding reference,
+// has a non-const overload or moves from what it was given shows up in the
+// "_after" projections (C14).  Threaded builds (-DVH_CONST_OPERANDS) share the
+// operand objects between threads and therefore hold them const.
+#ifdef VH_CONST_OPERANDS
+#define VH_OPERAND const
+#else
+#define VH_OPERAND
+#endif
+
 // ---------------------------------------------------------------- shared operands (threaded mode, C18)
 // In threaded mode the operand objects of all cases are built once by the main
 // thread and then only read: every handler obtains its operands as pointers to
 // these shared const objects, so several threads evaluate, copy, combine,
 // transform and integrate the SAME grid/spline objects at the same time.
 // mode 0: off (every case constructs its own operands)   1: fill   2: frozen
+// mode 3: filled by the running threads themselves (construction under a lock, the
+//         FIRST use of every shared object then happens in several threads at once)
 struct OperandCache {
   int mode = 0;
+  std::recursive_mutex mu;
   std::map<std::string, std::shared_ptr<const void>> objs;
   std::vector<std::function<std::pair<long, long>()>> gridAudits;  // (use_count, expected) per cached grid
   std::map<const void *, long> refs;  // grid storage -> number of cached objects referring to it
@@ -195,6 +211,14 @@ template <typename X, typename Make>
 std::shared_ptr<const X> cached(const std::string &key, Make &&make) {
   OperandCache &c = opCache();
   if (c.mode == 0) return std::shared_ptr<const X>(make());
+  if (c.mode == 3) {
+    std::lock_guard<std::recursive_mutex> lk(c.mu);
+    auto it3 = c.objs.find(key);
+    if (it3 != c.objs.end()) return std::static_pointer_cast<const X>(it3->second);
+    std::shared_ptr<const X> p3(make());  // a refused construction throws here, for every thread alike
+    c.objs[key] = p3;
+    return p3;
+  }
   auto it = c.objs.find(key);
   if (it != c.objs.end()) return std::static_pointer_cast<const X>(it->second);
   // not built in the fill pass (its construction was refused there): construct it locally, it will be refused again
@@ -209,7 +233,7 @@ template <typename T>
 std::shared_ptr<const Grid<T>> opGrid(const json &pts, int tag = 0) {
   return cached<Grid<T>>(std::string("G") + std::to_string(tag) + Codec<T>::name + pts.dump(), [&] {
     auto *g = new Grid<T>(decVec<T>(pts));
-    if (opCache().mode == 1) {
+    if (opCache().mode == 1 || opCache().mode == 3) {
       opCache().refs[g->getData().get()] += 1;
       opCache().gridAudits.push_back([g] {
         const void *blk = g->getData().get();
@@ -224,9 +248,15 @@ template <typename T, size_t O>
 std::shared_ptr<const Spline<T, O>> opSpline(const json &j, const Grid<T> &g, int tag = 0) {
   return cached<Spline<T, O>>(std::string("S") + std::to_string(tag) + Codec<T>::name + std::to_string(O) + j.dump(), [&] {
     auto *s = new Spline<T, O>(mkSpline<T, O>(j, g));
-    if (opCache().mode == 1) opCache().refs[s->getSupport().getGrid().getData().get()] += 1;
+    if (opCache().mode == 1 || opCache().mode == 3) opCache().refs[s->getSupport().getGrid().getData().get()] += 1;
     return s;
   });
+}
+
+// the operand behind a handle from opGrid/opSpline (created non-const by `new`, see above)
+template <typename X>
+VH_OPERAND X &operandRef(const std::shared_ptr<const X> &p) {
+  return const_cast<VH_OPERAND X &>(*p);
 }
 
 // ---------------------------------------------------------------- guarded calls
